@@ -14,8 +14,8 @@ import (
 	"encoding/json"
 	"fmt"
 	"math"
-	"reflect"
 	"os"
+	"reflect"
 	"runtime"
 	"sort"
 	"strconv"
@@ -36,9 +36,10 @@ type caseIn struct {
 }
 
 type run struct {
-	R    string `json:"r"` // ok | err | panic | unparsable
-	Root any    `json:"root"`
+	R    string `json:"r,omitempty"` // ok | err | panic | unparsable | skip
+	Root any    `json:"root,omitempty"`
 	M    string `json:"m,omitempty"`
+	Eq   int    `json:"eq,omitempty"` // 1: outcome and root identical to run 1 (grouping of identical observations)
 }
 
 type caseOut struct {
@@ -336,6 +337,23 @@ func one(c caseIn) caseOut {
 	}
 	// rebuilt from the printed form and from the simplified form (taken from a fresh, never executed plan)
 	out.Str, out.Simp, out.Text = rebuilt(raw, fresh)
+	// group identical observations: a run that equals run 1 is recorded as {eq:1}
+	first, _ := json.Marshal(out.Runs[0])
+	same := func(r run) bool {
+		b, _ := json.Marshal(run{R: r.R, Root: r.Root, M: out.Runs[0].M})
+		return string(b) == string(first)
+	}
+	for i := 1; i < len(out.Runs); i++ {
+		if same(out.Runs[i]) {
+			out.Runs[i] = run{Eq: 1}
+		}
+	}
+	if same(out.Str) {
+		out.Str = run{Eq: 1}
+	}
+	if same(out.Simp) {
+		out.Simp = run{Eq: 1}
+	}
 	return out
 }
 
@@ -353,8 +371,7 @@ func rebuilt(raw []any, fresh func() map[string]any) (rs, rp run, text string) {
 			}
 		}()
 		text = p.String()
-		sp := sen.Parser{}
-		v, err := sp.Parse([]byte(text))
+		v, err := senParse(text)
 		if err != nil {
 			rs = run{R: "unparsable", Root: enc(nil, 0), M: clip(err.Error())}
 			return
@@ -382,6 +399,18 @@ func rebuilt(raw []any, fresh func() map[string]any) (rs, rp run, text string) {
 		rp = execute(p4, fresh())
 	}()
 	return
+}
+
+// senParse parses the printed plan with a fresh sen.Parser; a panic of the parser (C06's business) makes the
+// text unparsable as far as C20 is concerned.
+func senParse(text string) (v any, err error) {
+	defer func() {
+		if x := recover(); x != nil {
+			err = fmt.Errorf("sen parser panic: %v", x)
+		}
+	}()
+	sp := sen.Parser{}
+	return sp.Parse([]byte(text))
 }
 
 func execCases() {
